@@ -13,9 +13,9 @@ from fractions import Fraction
 from lib import Raw, coqlit
 
 HEADER = ('From Coq Require Import List ZArith Bool String Ascii.\nImport ListNotations.\n'
-          'From SDC Require Import Scalars.Lex Scalars.Timestamp Scalars.Decimal Scalars.Duration Scalars.DateTime.\n'
+          'From SDC Require Import Scalars.Lex Scalars.Timestamp Scalars.Decimal Scalars.DecimalFloat Scalars.Duration Scalars.DateTime.\n'
           'Open Scope Z_scope.')
-DEPS = ['Scalars/DateTime.vo', 'Scalars/Timestamp.vo']
+DEPS = ['Scalars/DateTime.vo', 'Scalars/Timestamp.vo', 'Scalars/DecimalFloat.vo']
 
 TS_LIMIT = (1 << 53) // 1000          # xml -> py -> xml is claimed for 0 <= n, n * 1000 < 2^53
 TS_FLOAT_LIMIT = Fraction(1 << 50, 1000)   # py -> xml -> py (< 1 ms) is claimed for 1000 x <= 2^50
@@ -143,6 +143,17 @@ def lenient(kind, s):
         return True
     except Exception:  # noqa: BLE001
         return False
+
+
+def mag10(x):
+    """floor(log10 |x|) of a non-zero Fraction, exactly"""
+    x, k = abs(x), 0
+    if x >= 1:
+        return len(str(x.numerator // x.denominator)) - 1
+    while x < 1:
+        x *= 10
+        k -= 1
+    return k
 
 
 def bin_len(n):
@@ -400,6 +411,40 @@ def gen_dec_val(rng):
     return [neg, digs, e]
 
 
+def gen_decf_val(rng):
+    """an argument of DecimalConverter.to_xml that is not a Decimal: ['float', negative?, mantissa, exponent] (value =
+    mantissa * 2**exponent, the sign apart so that -0.0 exists) or ['int', digits].  Magnitudes 1e-7 .. 1e22 with the
+    places where something changes: the rounding brackets 10 and 100, ties of the 1st / 2nd / 3rd fraction digit, 1e15 ..
+    1e17 (str(float) and repr switch to exponent notation at 1e16), 2^49 .. 2^53 (binary64 runs out of fraction bits),
+    integers stored as floats."""
+    import math
+    r = rng.random()
+    if r < 0.12:
+        return ['int', str(rng.choice([1, -1]) * rng.choice([0, 1, 9, 10, 99, 100, rng.randrange(10 ** rng.randint(1, 22)), 10 ** rng.randint(1, 22)]))]
+    if r < 0.32:      # log-uniform over the whole range
+        x = rng.uniform(1, 10) * 10.0 ** rng.randint(-7, 21)
+    elif r < 0.44:    # next to the bracket bounds and powers of ten
+        x = rng.choice([10.0, 100.0, 1.0, 1000.0, 9.9995, 99.995, 9.9994999, 99.99499, 0.0005, 0.0015, 1e15, 1e16, 1e17, 1e18, 1e21, 1e22, 9.999e15,
+                        9007199254740992.0, 4503599627370496.0, 123456789012345678.0, 1.2345678901234568e17, 2.5e16, 1e-7, 1e-4, 5e-4, 4.9e-4])
+        for _ in range(rng.randint(0, 2)):
+            x = math.nextafter(x, rng.choice([0.0, math.inf]))
+    elif r < 0.62:    # next to a tie of the digit that is rounded
+        n, scale = rng.choice([(3, 10), (2, 100), (1, 10 ** rng.randint(3, 14))])
+        k = rng.randrange(scale // 10 * 10 ** n, scale * 10 ** n) if n < 3 else rng.randrange(0, 10 ** 4)
+        x = (k + 0.5) / 10 ** n
+        for _ in range(rng.randint(0, 2)):
+            x = math.nextafter(x, rng.choice([0.0, math.inf]))
+    elif r < 0.76:    # few fraction bits left
+        x = math.ldexp(rng.randrange(1 << 52, 1 << 53), rng.randint(-8, 1))
+    elif r < 0.88:    # integers as floats, 1 .. 22 digits
+        x = float(rng.randrange(10 ** rng.randint(0, 22)))
+    else:             # short decimals, as an application would pass them
+        x = float(Decimal(rng.randrange(10 ** rng.randint(1, 8))).scaleb(-rng.randint(0, 7)))
+    neg = rng.random() < 0.3
+    m, e = float_me(abs(x))
+    return ['float', neg, m, e]
+
+
 def gen_dur_fraction(rng):
     """fraction digits of a seconds field: every length, values whose digits beyond the sixth are zeros (10 ms written with
     seven digits), next to the rounding tie of the seventh digit, sub-microsecond values"""
@@ -588,7 +633,7 @@ def same_value(a: int, s: int, m: int, e: int) -> bool:
 
 # --------------------------------------------------------------------------------------------- implementation run
 SKIP = 'SKIPPED:stream-crashed'
-PLACEHOLDER = {'ts_ns': [0, 0, -1, SKIP], 'ts_floats': [SKIP], 'ts_exact': SKIP, 'ts_lex': SKIP, 'dec_vals': [SKIP, None], 'dec_lex': [SKIP, None],
+PLACEHOLDER = {'decf_vals': [SKIP, None, None], 'decf_lex': SKIP, 'ts_ns': [0, 0, -1, SKIP], 'ts_floats': [SKIP], 'ts_exact': SKIP, 'ts_lex': SKIP, 'dec_vals': [SKIP, None], 'dec_lex': [SKIP, None],
                'int_vals': [SKIP, None], 'int_lex': SKIP, 'bool_lex': SKIP, 'dur_vals': [SKIP, None, None, None], 'dur_lex': [SKIP, None],
                'dt_vals': [SKIP, None, None], 'dt_lex': [SKIP, None]}
 
@@ -679,6 +724,11 @@ def run(ctx):
         'NaN', 'Infinity', '-Infinity', 'sNaN', '1E5', '1e-3', '1_0', '٣', '.', '', '5.', '.5', '-0', '+.0', '1.5e-3', '2_0.5', '1٥.5', '0E-15']
     dec_lab = with_near_misses(rng, 'decimal', dec_plain, gen_dec_core, k, wrap_ws=True)
     dec_lex = [s for _, s in dec_lab]
+    decf_vals = [gen_decf_val(rng) for _ in range(ctx.n(1600, 30000))] + [
+        ['float', False] + float_me(1e17), ['float', True] + float_me(2.5e16), ['float', False] + float_me(1.2345678901234568e17),
+        ['float', False] + float_me(1e16), ['float', False] + float_me(9999999999999998.0), ['float', False] + float_me(1e22), ['float', True, 0, 0],
+        ['float', False, 0, 0], ['float', True] + float_me(0.0004), ['float', False] + float_me(42.1), ['float', False] + float_me(1125899906842624.125),
+        ['int', '0'], ['int', '-0'], ['int', str(10 ** 30)]]
     int_vals = [rng.choice([1, -1]) * rng.randrange(1 << rng.randint(1, 80)) for _ in range(ctx.n(600, 8000))] + [0, 1 << 32, 1 << 64, -(1 << 63)]
     int_plain = [gen_int_lex(rng) for _ in range(ctx.n(1300, 12000))] + [
         '1_000', '4_2', '12٣', '1２', '٣', ' 1 ', '\x0b1', '1\x1f', '\xa01', '+5', '-0', '', '+', '0x10', '1e3', '1.0', '1' * 100, '-' + '9' * 400, '0' * 200]
@@ -704,7 +754,7 @@ def run(ctx):
     dt_lab = with_near_misses(rng, 'datetime', dt_plain, gen_dt_core, k)
     dt_lex = [s for _, s in dt_lab]
     payload = {'ts_window': win, 'ts_ns': ts_ns, 'ts_floats': ts_floats, 'ts_exact': ts_exact, 'ts_lex': ts_lex, 'dec_vals': dec_vals,
-               'dec_lex': dec_lex, 'int_vals': [str(n) for n in int_vals], 'int_lex': int_lex, 'bool_lex': bool_lex, 'enum': ctx.seed,
+               'dec_lex': dec_lex, 'decf_vals': decf_vals, 'decf_lex': dec_lex, 'int_vals': [str(n) for n in int_vals], 'int_lex': int_lex, 'bool_lex': bool_lex, 'enum': ctx.seed,
                'dur_vals': dur_vals, 'dur_lex': dur_lex, 'dt_vals': dt_vals, 'dt_lex': dt_lex, 'wiring': 1}
     impl = run_impl(ctx, payload)
 
@@ -1030,6 +1080,97 @@ def run(ctx):
     ctx.count('dec-lex', len(dec_lex), dec_lex, rejected=sum(1 for r, _ in impl['dec_lex'] if is_err(r)), canonical_roundtrips=ncanon,
               value_roundtrips_up_to_18_digits=nvalue, **st, valid_integer_digits_histogram=hist(dl), valid_fraction_digits_histogram=hist(fl))
 
+    # ------------------------------------------------------------------ decimals given as float / int (DecimalConverter._float_to_xml)
+    # Documented rounding of the float path ("round value to handle float inaccuracies"): 1 fraction digit for |x| >= 100,
+    # 2 for |x| >= 10, 3 below; round(x, n) and the 'f' format both round the binary64 half-even.  Oracle, on the
+    # implementation's answer alone:
+    #   - the text is a plain xsd:decimal: digits, at most one '.', optional '-', NO exponent, no inf / nan
+    #   - |value(text) - x| <= 0.5 * 10^-n + |x| * 2^-52   (the second term: round(x, n) is itself a binary64; it matters
+    #     only above 2^49 where binary64 has fewer than n decimal fraction digits)
+    #   - USE_DECIMAL_TYPE = False: to_py(text) is an int (no '.') or the float nearest to value(text), and writing it
+    #     again gives the same value (read back equals)
+    #   - int arguments: exactly str(int)
+    cases, brackets, mags, nexp_zone, nround = [], [], [], 0, 0
+    for c, (s_, back, again) in zip(decf_vals, impl['decf_vals']):
+        if is_skip(s_):
+            continue
+        if c[0] == 'int':
+            x = Fraction(int(c[1]))
+            shown = c[1]
+            tol = Fraction(0)
+            brackets.append('int')
+        else:
+            x = (-1 if c[1] else 1) * Fraction(c[2]) * Fraction(2) ** c[3]
+            shown = repr(float(x)) if x or not c[1] else '-0.0'
+            n = 1 if abs(x) >= 100 else 2 if abs(x) >= 10 else 3
+            tol = Fraction(1, 2 * 10 ** n) + abs(x) / (1 << 52)
+            brackets.append(f'float, {n} fraction digit(s)')
+            nexp_zone += abs(x) >= 10 ** 16
+        mags.append('0' if x == 0 else f'1e{mag10(x):+03d}')
+        rep_ = {'stream': 'decf-vals', 'case': {'argument': c, 'value': shown}, 'impl_trace': [s_, back, again]}
+        why = clause = None
+        val = ref_dec(s_) if isinstance(s_, str) and not is_err(s_) else None
+        if is_err(s_) or not isinstance(s_, str):
+            why, clause = f'to_xml fails: {s_}', 'to_xml'
+        elif val is None or s_ != s_.strip(XML_WS) or s_.startswith('+'):
+            why, clause = f'written as {s_!r}, which is not a plain xsd:decimal' + (' (exponent notation)' if 'e' in s_.lower() else ''), 'no_exponent'
+        elif abs(val - x) > tol:
+            why, clause = (f'written as {s_!r}: off by {float(abs(val - x))!r}, the documented rounding allows {float(tol)!r}'), 'rounding'
+        elif c[0] == 'int' and s_ != str(int(c[1])):
+            why, clause = f'int written as {s_!r}', 'rounding'
+        else:
+            nround += val != x
+            want_kind = 'float' if '.' in s_ else 'int'
+            if not (isinstance(back, list) and back[0] == want_kind):
+                why, clause = f'{s_!r} is read back (USE_DECIMAL_TYPE = False) as {back!r}, expected a {want_kind}', 'read_back'
+            elif want_kind == 'int' and ref_int(back[1]) != val:
+                why, clause = f'{s_!r} is read back as int {back[1]}', 'read_back'
+            elif want_kind == 'float' and fr_of(back[1]) != Fraction(float(val)):
+                why, clause = f'{s_!r} is read back as {float(fr_of(back[1]))!r}', 'read_back'
+            elif not isinstance(again, str) or ref_dec(again) != val:
+                why, clause = f'{s_!r} is read back and written again as {again!r}: the value changed', 'read_back'
+        if why:
+            ctx.fail(f'DecimalConverter.to_xml({c[0]} {shown}): {why}', {'stream': 'decimal-float', 'clause': clause},
+                     dict(rep_, oracle={'verdict': 'fail', 'clause': {
+                         'no_exponent': 'the text is a plain xsd:decimal, exponent notation is never written',
+                         'rounding': '|value(text) - x| <= 0.5 * 10^-n + |x| * 2^-52, n = 1 / 2 / 3 fraction digits for |x| >= 100 / >= 10 / below',
+                         'read_back': 'USE_DECIMAL_TYPE = False: to_py(to_xml(x)) has the value of the text and is written back unchanged',
+                         'to_xml': 'to_xml returns a string'}[clause]}))
+        if c[0] == 'float':
+            a_, b_ = (c[2] << c[3], 1) if c[3] >= 0 else (c[2], 1 << -c[3])
+            cases.append((f'({coqlit(bool(c[1]))}, {coqlit(a_)}, {coqlit(b_)})', coqlit(s_ if isinstance(s_, str) and not is_err(s_) and all(32 <= ord(ch) < 127 for ch in s_) else '?'),
+                          {'argument': c, 'value': shown, 'impl': [s_, back, again]}))
+    corr('decf-vals', 'String.eqb', 'fun c => decf_to_xml (fst (fst c)) (snd (fst c)) (snd c)', [c[:2] for c in cases], lambda i, cs=cases: cs[i][2])
+    ctx.count('decf-vals', len(decf_vals), [tuple(c) for c in decf_vals], argument_kinds=hist(brackets), magnitude_histogram=hist(mags),
+              floats_at_or_above_1e16=nexp_zone, rounded_by_the_documented_rounding=nround,
+              documented_rounding='_float_to_xml: round(x, 1) for |x| >= 100, round(x, 2) for |x| >= 10, else round(x, 3); then the 18-digit cap and '
+                                  'removal of trailing zeros of to_xml')
+    ctx.sample({'stream': 'decf-vals', 'argument': decf_vals[0], 'impl [to_xml, to_py (float mode), to_xml again]': impl['decf_vals'][0]})
+
+    # to_py with USE_DECIMAL_TYPE = False on the decimal lexical stream: same lexical space, float (with '.') or int
+    nfl = {'float': 0, 'int': 0, 'rejected': 0}
+    for (label, s_), r in zip(dec_lab, impl['decf_lex']):
+        want = ref_dec(s_)
+
+        def decf_value(r, want=want, s_=s_):
+            kind = 'float' if '.' in s_ else 'int'
+            if not (isinstance(r, list) and r[0] == kind):
+                return f'{r!r}, expected a {kind}'
+            if kind == 'int':
+                return None if ref_int(r[1]) == want else f'int {r[1]}'
+            if abs(want) < 10 ** 300 and fr_of(r[1]) != Fraction(float(want)):
+                return f'float {float(fr_of(r[1]))!r} is not the binary64 nearest to {s_.strip()}'
+        big = want is not None and '.' in s_ and abs(want) >= 10 ** 300      # float() overflows to inf: outside the model
+        v = 'skip' if big else judge('decimal (USE_DECIMAL_TYPE=False)', 'decf-lex', label, s_, r, want, decf_value)
+        if v == 'accepted':
+            nfl[r[0]] += 1
+        elif v == 'rejected':
+            nfl['rejected'] += 1
+    if impl.get('decf_flag_restored') is False:
+        ctx.broken('correspondence', 'decf-lex', 'USE_DECIMAL_TYPE was not restored')
+    st = lexstat.get('decf-lex', {})
+    ctx.count('decf-lex', len(dec_lab), [s_ for _, s_ in dec_lab], **nfl, **{k_: v_ for k_, v_ in st.items() if k_ != 'near_miss_classes'})
+
     # ------------------------------------------------------------------ booleans (known finding: never rejects)
     cases = []
     nbool = {'lexical': 0, 'non_lexical': 0, 'non_lexical_coerced_to_false (known finding)': 0}
@@ -1304,7 +1445,7 @@ def run(ctx):
         trusted_base=['extraction: ExtrOcamlBasic only; ocaml/driver_c18.ml + zutil.inc (timestamp streams)',
                       'correspondence harness harness/impl/c18_impl.py and the reference semantics / regular expressions of harness/props/c18.py',
                       'the proposed repairs fixes/C18_*.diff are part of the checked tree (the model is the repaired code)'],
-        not_modelled=['DecimalConverter with float arguments (_float_to_xml, USE_DECIMAL_TYPE=False)', 'non-finite Decimals (NaN, Infinity) in to_xml',
+        not_modelled=['non-finite floats and Decimals (NaN, Infinity) in to_xml', 'to_py with USE_DECIMAL_TYPE=False (float(str) / int(str)): judged by the oracle only',
                       'value-range facets (unsignedInt / unsignedLong bounds, negative timestamps) - enforced by schema validation, not by the converters',
                       'XsdDateInformation.__str__ for second fields with more than 6 fraction digits (repr(float))', 'subnormal / overflowing floats'])
 
@@ -1320,6 +1461,8 @@ def replay(ctx, rep):
         payload[key] = [int(case['xml'])] if key == 'ts_ns' else [case['xml']]
     elif stream == 'dec-vals':
         payload['dec_vals'] = [case['decimal (neg, digits, exp)']]
+    elif stream == 'decf-vals':
+        payload['decf_vals'] = [case['argument']]
     elif stream == 'dur-vals':
         payload['dur_vals'] = [[case['kind'], case['value']]]
     elif stream == 'dt-vals':
